@@ -63,6 +63,19 @@ NEEDS = {
  'C16d': 'a user overload of all_is_broken / !is_defeat with arguments called as the last statement',
  'C17c': 'write of the most negative integer',
  'C17d': 'converting a non-literal string held in r1 to const byte[]',
+ # third round (front-end properties)
+ 'C06e': 'a you-call or nested ?? in the left operand of ?? hidden under an index / array literal / is cast / .length',
+ 'C06f': 'a you-call or nested ?? inside parentheses in the left operand of ?? (memoised parenthesised groups)',
+ 'C07e': '.length of a string literal or const string where a byte is wanted (folded to a shrinkable literal)',
+ 'C07f': 'a global named x plus two mutually visible local declarations of x',
+ 'C10e': 'a CodeGenError raised while generating function bodies (output file already opened)',
+ 'C10f': 'a constant out-of-range index into a string literal or const string',
+ 'C11e': 'two identical consecutive unary - or not operators',
+ 'C11f': 'a comparison whose left operand is itself a comparison (with or without parentheses)',
+ 'C12e': 'a raw vertical tab / form feed / U+0085 / U+2028 in a comment or literal (splitlines)',
+ 'C12f': 'a decimal literal with a leading zero followed by a non-zero digit',
+ 'C18e': 'an array literal mixing int constants and bytes, under certain PYTHONHASHSEEDs',
+ 'C18f': '-m24/40/48/56 and an index >= 1 into an int[] or string[]',
 }
 ALSO = {'C01d': ['C18'], 'C04c': ['C01'], 'C04d': ['C13'], 'C14c': [], 'C13c': ['C10'], 'C16d': ['C03'], 'C17d': ['C01'], 'C09c': ['C02'], 'C09d': ['C01'], 'C18b': ['C01'], 'C17': ['C04'], 'C15': ['C02'], 'C09b': ['C14'], 'C07b': [], 'C16': ['C03']}
 
